@@ -154,6 +154,23 @@ def main(tier):
                 lost = sorted(d for d in exp_dirs if d not in set(o["dirs"]) and "ż" not in d)
                 if lost:
                     chk.violation(f"C16/selector-pruning-not-conservative {sig}", f"matches_dir rejects {lost[:5]} although they are ancestors of paths matching one of the patterns", {"globs": [a["text"], b["text"]], "lost": lost[:10]})
+        # `^` and `$` are ordinary characters of a glob (and of a file name): end to end through `group --name`
+        import c09
+        adir = os.path.join(work, "anch", "t")
+        names = ["x$", "x", "x$y", "^x", "$", "x^", "$x", "^"]
+        for n_ in names:
+            lib.write_file(os.path.join(adir, n_), b"same")
+        anch = 0
+        for g in ["x$", "*$", "?$", "^x", "x$y", "x\\$", "^*", "$", "$*", "x^", "^", "*^", "?", "x$$"]:
+            r = lib.run_fclones(["group", "t", "--name", g, "--rf-over", "0", "-f", "fdupes"], os.path.dirname(adir), lib.base_env(work), timeout=60)
+            ref = c09.glob_re(g.replace("\\", ""))
+            exp = sorted(n_ for n_ in names if ref.match(n_))
+            got = sorted(os.path.basename(l) for l in r.out.decode("utf-8", "replace").splitlines() if l.strip()) if r.rc == 0 else None
+            anch += 1
+            if got != exp:
+                chk.violation(f"C16/anchor-char-literal glob={g!r}", f"`group --name {g}` selects {got} (exit {r.rc}{', panic' if r.panicked else ''}), the glob matches exactly {exp}",
+                              {"glob": g, "got": got, "expected": exp, "stderr": r.err.decode("utf-8", "replace")[-400:]})
+        chk.cov["anchor_char_cases"] = anch
         chk.cov["selector_pairs"] = len(sel)
         chk.cov["evaluations"] = pairs
         chk.cov["traces_validated_against_impl"] = len(vecs)
